@@ -61,12 +61,19 @@ Proof. intros t H. split; [apply line_okb_sound|apply line_okb_closing]; exact H
 Theorem C08_monitor_complete : forall t, line t -> closing_goaway t -> line_okb t = true.
 Proof. exact line_okb_complete. Qed.
 
-(* T3 (client): the client model is the RFC 9114 reference client on every history: once the driver has
-   processed a GOAWAY, send_request answers "closing" and opens no stream; an identifier that is not a
+(* T3 (client): the client model is the RFC 9114 reference client on every history of GOAWAY arrivals, driver
+   polls, stream-credit changes and polls of send_request (a new call, or the call suspended waiting for a stream):
+   once the driver has processed a GOAWAY, a new send_request answers "closing" and opens no stream, a suspended one
+   that obtains a stream resets it with H3_REQUEST_CANCELLED without writing anything; an identifier that is not a
    client-initiated bidirectional stream id, or larger than an earlier one, ends the driver with H3_ID_ERROR *)
 Theorem C08_client_is_rfc :
   forall h, crun client0 h = rfc_client_run rcl0 h.
 Proof. exact client_is_rfc. Qed.
+
+(* ... so no request is started once a GOAWAY has been processed (stated on the reference client) *)
+Theorem C08_client_starts_nothing_after_goaway :
+  forall s sid, r_limit s <> None -> ~ In (CReqOpened sid) (fst (rfc_client_step s KRequest)).
+Proof. exact rfc_no_request_after_goaway. Qed.
 
 (* the decision points the proofs rest on, as read from the source on this run *)
 Theorem C08_decision_points :
@@ -74,7 +81,9 @@ Theorem C08_decision_points :
                    = match sent with Some g => g <=? id | None => false end) /\
   (forall l n, shutdown_id (Some l) n = sid_add (sid_add l n) 1) /\
   (forall n, shutdown_id None n = sid_add 0 n) /\
-  last_accepted_is_max = true /\ ongoing_insert_is_stream = true /\
+  last_accepted_is_max = true /\ ongoing_insert = true /\ ongoing_insert_is_stream = true /\
+  store_before_write = true /\ closing_retest_after_open = true /\
+  closing_retest_reset_code = Some rfc_H3_REQUEST_CANCELLED /\
   accept_none_shutdown = Some 0 /\ accept_none_only_if_unsent = false /\
   (forall s g, (guard_present && cmp_eval guard_cmp s g) = (s <=? g)) /\
   reject_stop_code = Some rfc_H3_REQUEST_REJECTED /\ reject_reset_code = Some rfc_H3_REQUEST_REJECTED /\
@@ -112,6 +121,11 @@ Example C08_client_inhabited :
   crun client0 [KRequest; KGoaway 8; KDrive; KRequest; KGoaway 12; KDrive] =
     [CRequest; CReqOpened 0; CGoaway 8; CDrive; CDriveIdle; CRequest; CReqClosing; CGoaway 12; CDrive; CDriveErr 264].
 Proof. vm_compute. reflexivity. Qed.
+Example C08_client_parked_inhabited :
+  crun client0 [KStarve; KRequest; KGoaway 8; KDrive; KGrant 1; KRequest; KRequest] =
+    [CStarve; CRequest; CReqParked; CGoaway 8; CDrive; CDriveIdle; CGrant 1; CRequest; CReqCancelled 0 (Some 268);
+     CRequest; CReqClosing].
+Proof. vm_compute. reflexivity. Qed.
 
 Print Assumptions C08_wire_ids_never_increase.
 Print Assumptions C08_shown_below_every_goaway.
@@ -122,5 +136,6 @@ Print Assumptions C08_monitor_accepts_model.
 Print Assumptions C08_monitor_sound.
 Print Assumptions C08_monitor_complete.
 Print Assumptions C08_client_is_rfc.
+Print Assumptions C08_client_starts_nothing_after_goaway.
 Print Assumptions C08_decision_points.
 Print Assumptions C08_saturation_boundary_refuted.
